@@ -72,13 +72,23 @@ class Lock:
         self.f.close()
 
 
+def _big_stack():
+    """coqc parses large list literals recursively: lift the soft stack limit to the hard one"""
+    try:
+        import resource
+        soft, hard = resource.getrlimit(resource.RLIMIT_STACK)
+        resource.setrlimit(resource.RLIMIT_STACK, (hard, hard))
+    except Exception:
+        pass
+
+
 def run(cmd, cwd=None, timeout=1800, env=None, stdin=None):
     e = dict(os.environ)
     e["CARGO_NET_OFFLINE"] = "true"
     if env:
         e.update(env)
     try:
-        p = subprocess.run(cmd, cwd=cwd, env=e, input=stdin, capture_output=True, text=True, timeout=timeout)
+        p = subprocess.run(cmd, cwd=cwd, env=e, input=stdin, capture_output=True, text=True, timeout=timeout, preexec_fn=_big_stack)
         return p.returncode, p.stdout, p.stderr
     except subprocess.TimeoutExpired as ex:
         return 124, (ex.stdout or b"").decode() if isinstance(ex.stdout, bytes) else (ex.stdout or ""), "TIMEOUT"
